@@ -39,7 +39,8 @@ DP_NOTE = ("Trusted: the libfs hooks (they only shorten requests / force errno /
            "(thorough) cells in the exhaustive model; conformance covers what is run.")
 CHECKS.update({
  "C01": dict(tech="TLA+ model XcpData (create/allocate/clone/seek walk/extent->block jobs, every kernel count, any job order) checked by TLC; "
-                  "TLC-enumerated initial states replayed into the real binary, destination cells judged by the TLC trace spec Trace_Data",
+                  "TLC-enumerated initial states replayed into the real binary, destination cells judged by the TLC trace spec Trace_Data; traced runs "
+                  "replayed as XcpData actions (TraceA_Data); block-partition and retry-loop arithmetic as unbounded inductive invariants (Apalache)",
              text="Exhaustive model checking of the single-file copy design and spec-to-implementation replay of its scenario space "
                   "(layout x block size x driver x reflink x prior destination) plus byte-granular block-boundary sizes; thorough adds a 2 GiB+ file.",
              ref="DESIGN 5 (C01)", note=DP_NOTE),
